@@ -59,6 +59,8 @@ def gen_input(rng, target, knobs=None, huge=False):
     k = knobs or gen.Knobs(rng)
     if huge == "many" and not k.many and rng.random() < 0.02:
         k.many = rng.choice((65, 80, 100, 255, 256, 300))       # long lists of primitives (C04: a fault late in the list)
+    if huge == "mid" and k.huge_buf > 8192:
+        k.huge_buf = 8192 if k.huge_buf == 32768 else 5000       # warn-mode runs over 30 k events cost seconds each
     if huge == "lite":
         k.huge_buf = rng.choice((1100, 2000, 3000)) if rng.random() < 0.012 else 0     # messages beyond 1 kB, cheap enough for many tasks
         k.many = 0
